@@ -460,7 +460,10 @@ class GuardTracker(Tracker):
     `kill(ev, key)` decides whether an event invalidates a fact (default:
     a write to a path that occurs in the key, or a call listed in kill_calls)."""
 
-    def __init__(self, want, kill_calls=(), kill=None, keep_on_write=()):
+    def __init__(self, want, kill_calls=(), kill=None, keep_on_write=(), lock_tracker=None):
+        # lock_tracker: when given, acquiring a lock `X->m` / `X.m` invalidates what was learnt about X's other
+        # fields before (a test made before taking the lock that protects the object says nothing afterwards)
+        self.lock_tracker = lock_tracker
         self.want = want if callable(want) else (lambda k, pats=want: any(re.search(p, k) for p in pats))
         self.kill_calls = set(kill_calls)
         self.kill = kill
@@ -496,9 +499,19 @@ class GuardTracker(Tracker):
             shown = None      # operator-> / conversions print as the object path: not a re-evaluated call
         declared = [ev.f.decls[v['decl']]['name'] for v in ev.e['vars']] if ev.kind == 'declstmt' else ()
         dead = set()
+        owners = []
+        if self.lock_tracker is not None and ev.kind in ('call', 'construct'):
+            for op, fact in self.lock_tracker.effects(ev):
+                if op == '+' and fact.startswith('L:'):
+                    lp = fact[2:].split('#')[0]
+                    m = re.match(r'^(.*)(->|\.)\w+$', lp)
+                    if m and m.group(1) not in ('this',):
+                        owners.append(m.group(1) + m.group(2))
         for g in gs:
             key = g[2:-2]
-            if declared and any(_mentions(key, d) for d in declared):
+            if owners and any(o in key for o in owners):
+                dead.add(g)
+            elif declared and any(_mentions(key, d) for d in declared):
                 dead.add(g)
             elif ev.kind == 'call' and 'errno' in key and _clobbers_errno(ev):
                 dead.add(g)
@@ -560,10 +573,12 @@ class ConstTracker(Tracker):
         dj = f.decls[d]
         if dj['kind'] != 'local':
             return False
-        if dj.get('isref') or dj.get('isptr'):
+        if dj.get('isref'):
             return False
         if self.names is not None and dj['name'] not in self.names:
             return False
+        if dj.get('isptr'):
+            return True      # only the literal nullptr is ever recorded for pointers (any other assignment clears the fact)
         return dj['type'] in ('bool', 'int', 'unsigned int', 'uint64_t', 'int64_t', 'size_t', 'uint32_t', 'long', 'unsigned long', 'uint16_t', 'uint8_t', 'ssize_t')
 
     def transfer(self, ev, st):
@@ -577,6 +592,8 @@ class ConstTracker(Tracker):
                 if self._ok(f, v['decl']):
                     name = f.decls[v['decl']]['name']
                     c = f.const(v['init']) if v['init'] is not None and v['init'] >= 0 else None
+                    if c is not None and c != 0 and f.decls[v['decl']].get('isptr'):
+                        c = None
                     s = set(st) if s is None else s
                     for x in list(s):
                         if x.startswith('V:%s=' % name):
@@ -596,6 +613,8 @@ class ConstTracker(Tracker):
             t = f.x(f.skip(tgt))
             if t and t['k'] == 'ref' and self._ok(f, t['decl']):
                 name = t['name']
+                if val is not None and val != 0 and f.decls[t['decl']].get('isptr'):
+                    val = None
                 s = set(x for x in st if not x.startswith('V:%s=' % name))
                 if val is not None:
                     s.add('V:%s=%d' % (name, val))
